@@ -257,7 +257,11 @@ impl Real {
             Op::Seek(p) => res(self.stream.as_mut().unwrap().seek(*p).map(|k| format!("num {}", k))),
             Op::SetLen(n) => res(self.stream.as_mut().unwrap().set_len(*n).map(|_| "unit".into())),
             Op::Flush => res(self.stream.as_mut().unwrap().flush().map(|_| "unit".into())),
-            Op::Len => format!("num {}", self.stream.as_ref().unwrap().len()),
+            Op::Len => {
+                let s = self.stream.as_ref().unwrap();
+                // `is_empty` is not part of the protocol: it must agree with `len`
+                if s.is_empty() != (s.len() == 0) { format!("num {} !inconsistent:is_empty", s.len()) } else { format!("num {}", s.len()) }
+            }
             Op::Final => {
                 self.stream = None;
                 let comp = self.comp.as_mut().unwrap();
